@@ -154,7 +154,73 @@ func runPenaltyRules() {
 					}
 				}
 			}
+			for _, sh := range finderTextures {
+				m, dark := textureMatrix(size, sh)
+				if !penaltyCompare(l, m, penCase{"penalty", v, sh, dark}) {
+					return
+				}
+			}
 			l.Distinct("nontrivial", fmt.Sprint("penalty v", v))
 		})
+	// Counts beyond 8 and 16 bits. The rule functions take any matrix; a symbol has some twenty
+	// finder-like runs, a texture of them has thousands: 128 / 256 of them are passed inside the
+	// version sizes above (version 8 up), 32768 / 65536 of them - and as many same-colour runs and
+	// 2x2 blocks - need the larger squares here.
+	big := []int{300, 720, 900}
+	shapes := append(append([]string{}, finderTextures...), "uniform-dark", "uniform-light", "checker/1", "stripes-h/5", "stripes-v/6")
+	chk.Range(fmt.Sprintf("mask evaluation features on large textures: sizes %v x %d textures (1:1:3:1:1 runs with four light modules in rows, in columns, in both; uniform; stripes): every feature count passes 2^15 and 2^16", big, len(shapes)), len(big)*len(shapes),
+		func(i int) string { return fmt.Sprint(big[i/len(shapes)], shapes[i%len(shapes)]) },
+		func(l *mc.Local, i int) {
+			size, sh := big[i/len(shapes)], shapes[i%len(shapes)]
+			m, dark := textureMatrix(size, sh)
+			if penaltyCompare(l, m, penCase{"penalty", -size, sh, dark}) {
+				w := qr.PenaltyParts(m)
+				l.Distinct("nontrivial", fmt.Sprint("penalty-large ", size, sh, w))
+				if w[2]/40 >= 65536 {
+					l.Count("matrices_with_65536_or_more_finder_like_runs", 1)
+				}
+			}
+		})
 	chk.Sample("penalty", penCase{"penalty", 2, "row-major", 375})
+}
+
+var finderTextures = []string{"finders-h", "finders-v", "finders-hv", "finders-h/shifted-rows"}
+
+// textureMatrix: size x size cells of a repeating texture; "finders-*" tile the run 1011101 0000
+// (period 11) along rows, columns, diagonals, or along rows with each row shifted by 3.
+func textureMatrix(size int, shape string) ([][]bool, int) {
+	pat := []bool{true, false, true, true, true, false, true, false, false, false, false}
+	m := make([][]bool, size)
+	dark := 0
+	for y := range m {
+		m[y] = make([]bool, size)
+		for x := range m[y] {
+			var b bool
+			switch shape {
+			case "finders-h":
+				b = pat[x%11]
+			case "finders-v":
+				b = pat[y%11]
+			case "finders-hv":
+				b = pat[(x+y)%11]
+			case "finders-h/shifted-rows":
+				b = pat[(x+3*y)%11]
+			case "uniform-dark":
+				b = true
+			case "uniform-light":
+				b = false
+			case "checker/1":
+				b = (x+y)%2 == 0
+			case "stripes-h/5":
+				b = (y/5)%2 == 0
+			case "stripes-v/6":
+				b = (x/6)%2 == 0
+			}
+			m[y][x] = b
+			if b {
+				dark++
+			}
+		}
+	}
+	return m, dark
 }
